@@ -39,6 +39,8 @@ pub struct BfsStats {
     pub capped: bool,
     pub samples: Vec<String>,
     pub nontrivial_states: u64,
+    /// fingerprints of the distinct non-trivial states (bounded)
+    pub nontrivial_keys: Vec<u64>,
 }
 
 #[derive(Clone, Debug)]
@@ -137,10 +139,14 @@ where
                     col.add(h2, m);
                     continue;
                 }
-                if seen.insert(h128(&s.canon())) {
+                let hk = h128(&s.canon());
+                if seen.insert(hk) {
                     st.states += 1;
                     if s.nontrivial() {
                         st.nontrivial_states += 1;
+                        if st.nontrivial_keys.len() < 200_000 {
+                            st.nontrivial_keys.push(hk as u64);
+                        }
                     }
                     if st.samples.len() < 4 && (st.states % 97 == 3 || d + 1 == depth) {
                         st.samples.push(format!("{:?}", h2));
@@ -198,10 +204,14 @@ where
                     col.add(h2, m);
                     continue;
                 }
-                if seen.insert(h128(&s.canon())) {
+                let hk = h128(&s.canon());
+                if seen.insert(hk) {
                     st.states += 1;
                     if s.nontrivial() {
                         st.nontrivial_states += 1;
+                        if st.nontrivial_keys.len() < 200_000 {
+                            st.nontrivial_keys.push(hk as u64);
+                        }
                     }
                     if st.samples.len() < 4 && (st.states % 97 == 3 || d + 1 == depth) {
                         st.samples.push(format!("{:?}", h2));
@@ -269,8 +279,9 @@ where
 /// violation's replay case next to the history.
 pub fn record<A: Serialize + std::fmt::Debug>(out: &mut Outcome, cfg: &Value, st: &BfsStats, viols: &[Violation<A>]) {
     out.add_bfs(st);
-    for i in 0..st.nontrivial_states.min(4096) {
-        out.nontrivial_h(crate::report::hash_str(&format!("{cfg}#{i}")));
+    let salt = crate::report::hash_str(&cfg.to_string());
+    for k in &st.nontrivial_keys {
+        out.nontrivial_h(k ^ salt);
     }
     out.count("nontrivial_states", st.nontrivial_states);
     for v in viols {
